@@ -11,6 +11,7 @@ characterise the unique optimum; the oracle checks them on the forecast itself.
 from __future__ import annotations
 
 import math
+import re
 
 import numpy as np
 import pandas as pd
@@ -39,6 +40,10 @@ ASSUMPTIONS = [
     'dual variable is within tolerance_dual (plus float resolution) of its optimal value',
     'parameters are Beta (free or fixed) or Numeric expressions, prices Numeric (the forecasting code '
     'reads them with get_value()); labels are distinct non-negative integers; one or two data rows',
+    'a model object carries no state from one forecast/validation to the next as long as neither its '
+    'expressions nor its estimation results change: the documented inputs of forecast, validation and of the '
+    'numeric pieces are the arguments of the call, so each use equals the same use by a new model object '
+    '(histories never modify a Database in place and never estimate)',
 ]
 BUDGETS = dict(quick=dict(shards=8), thorough=dict(shards=16))
 
@@ -335,12 +340,14 @@ def _rows_as_dicts(result, labels, n_rows, n_draws):
     return out, None
 
 
-def judge_labelling(out, spec, obs, tag):
-    """KKT oracle on the forecasts of one labelling. Returns per-draw diagnostics or None."""
+def judge_labelling(out, spec, obs, tag, key=None):
+    """KKT oracle on the forecasts of one labelling. Returns per-draw diagnostics or None.
+    `key` maps an aspect of the forecast to a failure key (default: forecast:<variant>:<aspect>)."""
     variant = spec['variant']
     labels = obs['labels']
     n = len(labels)
-    key = lambda aspect: f'forecast:{variant}:{aspect}'  # noqa: E731
+    if key is None:
+        key = lambda aspect: f'forecast:{variant}:{aspect}'  # noqa: E731
     where = f'[{tag}] {_render_model(spec, labels)}'
     if 'build_exc' in obs:
         out.fail(f'construct:{variant}:raises:{obs["build_exc"]["type"]}',
@@ -449,7 +456,7 @@ def judge_labelling(out, spec, obs, tag):
                               f'{ref[i].du(0.0)!r} exceeds that of the consumed goods {lam_lo!r}: {x_by_label}'))
                 break
         if abs(delta) > allowed:
-            tr = obs['traces'][d]
+            tr = obs['traces'][d] if 'traces' in obs else {}
             discarded = (tr.get('last_loop') is not None and tr.get('final') is not None
                          and abs(tr['last_loop'][1] - budget) <= tol_b < abs(tr['final'][1] - budget))
             aspect = '@forecast:bisection:accepted_iterate_discarded' if discarded else 'budget'
@@ -617,9 +624,10 @@ def _close(a, b, scale=0.0, rel=REL):
     return abs(a - b) <= rel * max(abs(a), abs(b), scale) + 1e-300
 
 
-def _point_lambda(spec, i, eps, t):
+def _point_lambda(spec, i, eps, t, row=None):
     """A multiplier at which the closed-form expenditure of alternative i is positive."""
-    alt = RefAlt(spec['variant'], spec['alts'][i], spec['prices'], spec['scale'], spec['row'], eps)
+    alt = RefAlt(spec['variant'], spec['alts'][i], spec['prices'], spec['scale'],
+                 spec['row'] if row is None else row, eps)
     if alt.outside:
         # any multiplier above the asymptote: the marginal utility at expenditure 1/t - 1
         return alt.du(1.0 / t - 1.0 + 1e-3)
@@ -627,44 +635,22 @@ def _point_lambda(spec, i, eps, t):
     return alt.m + t * (w - alt.m)
 
 
-def judge_pieces(spec) -> Outcome:
-    out = Outcome()
-    variant, labels = spec['variant'], spec['labels']
-    n = len(labels)
+def judge_points(fail, out, spec, row, labels, points, observed, outside_index, where):
+    """The numeric pieces observed at `points` (data row `row`) against the technical report; violated
+    clauses go to fail(aspect, msg)."""
+    variant = spec['variant']
     outside_pos = next((i for i, a in enumerate(spec['alts']) if a['gamma'] is None), None)
-    scheme = _label_scheme(labels)
-    out.classes += [f'pieces:variant={variant}', f'pieces:labels={scheme}',
-                    f'pieces:outside_good={"yes" if outside_pos is not None else "no"}']
-    out.evaluations = len(spec['points'])
-    out.nontrivial = scheme == 'arbitrary' and len(spec['points']) >= 3
-    key = lambda aspect: f'pieces:{variant}:{aspect}'  # noqa: E731
-    where = _render_model(spec, labels)
-    res = isolate.call(_observe_pieces, spec)
-    if not res['ok']:
-        out.fail(key(f'child:{res["exc_type"]}'), f'{where}: {res["exc_type"]}: {res["exc_msg"]}')
-        return out
-    obs = res['value']
-    if 'build_exc' in obs:
-        out.fail(f'construct:{variant}:raises:{obs["build_exc"]["type"]}',
-                 f'{where}: constructor raised {obs["build_exc"]}')
-        return out
     outside_label = None if outside_pos is None else labels[outside_pos]
-    seen = set()
-
-    def fail(aspect, msg):
-        if aspect not in seen:
-            seen.add(aspect)
-            out.fail(aspect if aspect.startswith('derivative_at_zero') else key(aspect), msg)
-
-    for (i, x, eps, lam), p in zip(spec['points'], obs['points']):
+    for (i, x, eps, lam), p in zip(points, observed):
         k = labels[i]
-        alt = RefAlt(variant, spec['alts'][i], spec['prices'], spec['scale'], spec['row'], eps)
+        alt = RefAlt(variant, spec['alts'][i], spec['prices'], spec['scale'], row, eps)
         role = 'outside' if alt.outside else 'inside'
         at = f'{where}: alternative {k} ({role}), expenditure {x!r}, epsilon {eps!r}'
         u_ref, du_ref = alt.u(x), alt.du(x)
         u_scale = abs(alt.psi) * max(1.0, alt.offset()) + abs(alt.m * x)
         du_scale = alt.magnitude(x)
-        out.classes.append('pieces:at_zero' if x == 0.0 else 'pieces:positive')
+        if out is not None:
+            out.classes.append('pieces:at_zero' if x == 0.0 else 'pieces:positive')
         for name in ('u_num', 'du_num', 'x_opt'):
             if isinstance(p[name], dict):
                 fail(f'{name}:raises:{p[name]["type"]}', f'{at}: {name} raised {p[name]}')
@@ -694,11 +680,11 @@ def judge_pieces(spec) -> Outcome:
         if num_off:
             also = f', d/de symbolic utility = {p["du_sym"]!r}' if have_sym else ''
             if x == 0.0 and not alt.outside:
-                collides = outside_label is not None and k == obs['outside_index']
+                collides = outside_label is not None and k == outside_index
                 fail(f'derivative_at_zero:{variant}:'
                      f'{"label_equals_outside_index" if collides else "value"}',
                      f'{at}: derivative_utility_one_alternative = {du_num!r}, technical report = {du_ref!r}'
-                     f'{also} (outside good: label {outside_label}, position {obs["outside_index"]})')
+                     f'{also} (outside good: label {outside_label}, position {outside_index})')
             else:
                 fail(f'derivative:{role}:numeric_vs_report',
                      f'{at}: derivative_utility_one_alternative = {du_num!r}, technical report = {du_ref!r}{also}')
@@ -733,29 +719,452 @@ def judge_pieces(spec) -> Outcome:
                 elif isinstance(p.get('du_at_opt'), dict):
                     fail(f'du_num:raises:{p["du_at_opt"]["type"]}',
                          f'{at_l}: derivative at the optimal expenditure {xo!r} raised {p["du_at_opt"]}')
+
+
+def relevant_validation(spec, row, labels, messages):
+    """The reports of validation(one_row) that are held against the model.
+
+    validation() inverts the derivative at the fixed multiplier 10 with epsilon 0.01; the closed form is
+    only meant for multipliers not above the marginal utility at zero (report, Property 3), so reports
+    about other alternatives are not held against it."""
+    variant = spec['variant']
+    relevant = []
+    for msg in messages:
+        hit = [i for i, k in enumerate(labels) if f'dual variables for alt. {k}:' in msg]
+        if hit:
+            alt = RefAlt(variant, spec['alts'][hit[0]], spec['prices'], spec['scale'], row, 0.01)
+            if not alt.outside and not 10.0 <= alt.du(0.0) * (1 - 1e-6):
+                continue
+            if alt.outside and variant == 'nonmono' and not 10.0 > alt.m + 1e-6:
+                continue
+        relevant.append(msg)
+    return relevant
+
+
+def judge_pieces(spec) -> Outcome:
+    out = Outcome()
+    variant, labels = spec['variant'], spec['labels']
+    n = len(labels)
+    outside_pos = next((i for i, a in enumerate(spec['alts']) if a['gamma'] is None), None)
+    scheme = _label_scheme(labels)
+    out.classes += [f'pieces:variant={variant}', f'pieces:labels={scheme}',
+                    f'pieces:outside_good={"yes" if outside_pos is not None else "no"}']
+    out.evaluations = len(spec['points'])
+    out.nontrivial = scheme == 'arbitrary' and len(spec['points']) >= 3
+    key = lambda aspect: f'pieces:{variant}:{aspect}'  # noqa: E731
+    where = _render_model(spec, labels)
+    res = isolate.call(_observe_pieces, spec)
+    if not res['ok']:
+        out.fail(key(f'child:{res["exc_type"]}'), f'{where}: {res["exc_type"]}: {res["exc_msg"]}')
+        return out
+    obs = res['value']
+    if 'build_exc' in obs:
+        out.fail(f'construct:{variant}:raises:{obs["build_exc"]["type"]}',
+                 f'{where}: constructor raised {obs["build_exc"]}')
+        return out
+    outside_label = None if outside_pos is None else labels[outside_pos]
+    seen = set()
+
+    def fail(aspect, msg):
+        if aspect not in seen:
+            seen.add(aspect)
+            out.fail(aspect if aspect.startswith('derivative_at_zero') else key(aspect), msg)
+
+    judge_points(fail, out, spec, spec['row'], labels, spec['points'], obs['points'], obs['outside_index'], where)
     # the model's own validation must not contradict agreement established above
     if not out.failures:
         if 'validation_exc' in obs:
             out.fail(key(f'validation:raises:{obs["validation_exc"]["type"]}'),
                      f'{where}: validation(one_row) raised {obs["validation_exc"]}')
         else:
-            # validation() inverts the derivative at the fixed multiplier 10 with epsilon 0.01; the
-            # closed form is only meant for multipliers not above the marginal utility at zero
-            # (report, Property 3), so reports about other alternatives are not held against it
-            relevant = []
-            for msg in obs.get('validation', []):
-                hit = [i for i, k in enumerate(labels) if f'dual variables for alt. {k}:' in msg]
-                if hit:
-                    alt = RefAlt(variant, spec['alts'][hit[0]], spec['prices'], spec['scale'],
-                                 spec['row'], 0.01)
-                    if not alt.outside and not 10.0 <= alt.du(0.0) * (1 - 1e-6):
-                        continue
-                    if alt.outside and variant == 'nonmono' and not 10.0 > alt.m + 1e-6:
-                        continue
-                relevant.append(msg)
+            relevant = relevant_validation(spec, spec['row'], labels, obs.get('validation', []))
             if relevant:
                 out.fail(key('validation:reports'),
                          f'{where}: validation(one_row) reports {relevant[:2]} although the pieces agree')
+    return out
+
+
+# ---------------------------------------------------------------------------------------------
+# sub-check 3: histories - one model object used on several samples, one after the other
+#
+# spec['samples'] = [{'name', 'rows': [row, ...], 'eps': [row][draw][alternative]}, ...]
+# spec['ops'] = list of
+#   ['forecast', s, brute_force]            model.forecast(database of sample s, ...)
+#   ['validation', s, r, name]              model.validation(one_row): row r of sample s, taken from
+#                                           Database.mdcev_row_split() (name None) or hand-made with that name
+#   ['one_draw', s, r, d, name, method]     forecast_bisection_one_draw / forecast_bruteforce_one_draw on a
+#                                           hand-made one-row Database called `name`, draw d of row r
+#   ['pieces', s, r, name, points]          the numeric pieces on a hand-made one-row Database called `name`
+
+
+def sample_view(spec, s, r=None, d=None):
+    """The forecast spec of sub-check 1 for sample s (or for draw d of its row r only)."""
+    sample = spec['samples'][s]
+    rows, eps = sample['rows'], sample['eps']
+    if r is not None:
+        rows, eps = [rows[r]], [[eps[r][d]]]
+    view = {k: v for k, v in spec.items() if k not in ('samples', 'ops')}
+    view.update(row=rows[0], more_rows=rows[1:], eps=eps)
+    return view
+
+
+def _sample_database(sample):
+    from biogeme.database import Database
+
+    rows = sample['rows']
+    return Database(sample['name'], pd.DataFrame({name: [float(r[name]) for r in rows] for name in rows[0]}))
+
+
+def _eps_arrays(m, labels, eps):
+    """Column j of an epsilon matrix belongs to alternative index_to_key[j]."""
+    arrays = [np.zeros((len(per_row), len(labels))) for per_row in eps]
+    for r, per_row in enumerate(eps):
+        for d, per_alt in enumerate(per_row):
+            for i, k in enumerate(labels):
+                arrays[r][d, m.key_to_index[k]] = per_alt[i]
+    return arrays
+
+
+def _run_op(m, spec, op):
+    """Runs in the child: one use of the model object `m`, as plain data."""
+    from biogeme.database import Database
+
+    labels = spec['labels']
+    kind, s = op[0], op[1]
+    sample = spec['samples'][s]
+    budget, tol_d, tol_b = spec['budget'], spec['tol_dual'], spec['tol_budget']
+    try:
+        db = _sample_database(sample)
+        eps = _eps_arrays(m, labels, sample['eps'])
+        if kind == 'forecast':
+            res = m.forecast(database=db, total_budget=budget, epsilons=[e.copy() for e in eps],
+                             brute_force=op[2], tolerance_dual=tol_d, tolerance_budget=tol_b)
+            return dict(frames=[dict(columns=[c if isinstance(c, str) else int(c) for c in df.columns],
+                                     rows=[[float(v) for v in line] for line in df.to_numpy()])
+                                for df in res])
+        if kind == 'validation':
+            r, name = op[2], op[3]
+            one = db.mdcev_row_split()[r] if name is None else Database(name, db.data.iloc[[r]])
+            return dict(messages=[str(x)[:300] for x in m.validation(one_row=one)])
+        if kind == 'one_draw':
+            r, d, name, method = op[2:6]
+            one = Database(name, db.data.iloc[[r]])
+            if method == 'bisection':
+                res = m.forecast_bisection_one_draw(one_row_of_database=one, total_budget=budget,
+                                                    epsilon=eps[r][d].copy(), tolerance_dual=tol_d,
+                                                    tolerance_budget=tol_b)
+            else:
+                res = m.forecast_bruteforce_one_draw(one_row_database=one, total_budget=budget,
+                                                     epsilon=eps[r][d].copy())
+            return dict(solution=None if res is None else
+                        [[int(k), float(v)] for k, v in sorted(res.items())])
+        r, name, points = op[2:5]
+        one = Database(name, db.data.iloc[[r]])
+    except Exception as e:  # noqa
+        return dict(exc=_exc(e))
+
+    def guarded(fn):
+        try:
+            return float(fn())
+        except Exception as e:  # noqa
+            return _exc(e)
+
+    observed = []
+    for i, x, e, lam in points:
+        k = labels[i]
+        p = dict()
+        p['u_num'] = guarded(lambda: m.utility_one_alternative(
+            the_id=k, the_consumption=x, epsilon=e, one_observation=one))
+        p['du_num'] = guarded(lambda: m.derivative_utility_one_alternative(
+            the_id=k, the_consumption=x, epsilon=e, one_observation=one))
+        p['x_opt'] = guarded(lambda: m.optimal_consumption_one_alternative(
+            the_id=k, dual_variable=lam, epsilon=e, one_observation=one))
+        if isinstance(p['x_opt'], float) and math.isfinite(p['x_opt']) and \
+                (p['x_opt'] > 0.0 or spec['alts'][i]['gamma'] is not None and p['x_opt'] >= 0.0):
+            p['du_at_opt'] = guarded(lambda: m.derivative_utility_one_alternative(
+                the_id=k, the_consumption=p['x_opt'], epsilon=e, one_observation=one))
+        observed.append(p)
+    return dict(points=observed)
+
+
+def _observe_history(spec, reuse):
+    """Runs in the child. reuse=True: ONE model object performs all the operations in sequence.
+    reuse=False: every operation is performed by a model object of its own; one more model object reports
+    the maps and the marginal utilities at zero (root-cause attribution), each data row under its own name."""
+    from biogeme.database import Database
+
+    labels = spec['labels']
+    n = len(labels)
+    view = sample_view(spec, 0)
+    o = dict(labels=list(labels), ops=[])
+
+    def new_model():
+        return build_model(view, labels, list(range(n)))[0]
+
+    try:
+        m = new_model()
+    except Exception as e:  # noqa: constructor refusing a valid model
+        o['build_exc'] = _exc(e)
+        return o
+    if not reuse:
+        o['index_to_key'] = [int(k) for k in m.index_to_key]
+        o['key_to_index'] = {int(k): int(v) for k, v in m.key_to_index.items()}
+        o['outside_key'] = None if m.outside_good_key is None else int(m.outside_good_key)
+        o['outside_index'] = None if m.outside_good_index is None else int(m.outside_good_index)
+        o['maps_ok'] = (sorted(o['index_to_key']) == sorted(labels)
+                        and all(0 <= o['key_to_index'].get(k, -1) < n and
+                                o['index_to_key'][o['key_to_index'][k]] == k for k in labels))
+        if not o['maps_ok']:
+            return o
+        o['w0'] = []
+        for s, sample in enumerate(spec['samples']):
+            db = _sample_database(sample)
+            eps = _eps_arrays(m, labels, sample['eps'])
+            per_sample = []
+            for r in range(len(sample['rows'])):
+                one = Database(f'c18_sample{s}_row{r}', db.data.iloc[[r]])
+                for d in range(len(sample['eps'][r])):
+                    per = {}
+                    for i, k in enumerate(labels):
+                        if spec['alts'][i]['gamma'] is None:
+                            continue
+                        try:
+                            per[int(k)] = float(m.derivative_utility_one_alternative(
+                                the_id=k, the_consumption=0.0, epsilon=float(eps[r][d, m.key_to_index[k]]),
+                                one_observation=one))
+                        except Exception as e:  # noqa
+                            per[int(k)] = _exc(e)
+                    per_sample.append(per)
+            o['w0'].append(per_sample)
+    for op in spec['ops']:
+        if not reuse:
+            m = new_model()
+        o['ops'].append(_run_op(m, spec, op))
+    return o
+
+
+def _same(a, b):
+    """Two runs of the same deterministic computation."""
+    if isinstance(a, dict) or isinstance(b, dict):  # a recorded exception
+        return isinstance(a, dict) and isinstance(b, dict) and a['type'] == b['type']
+    if a is None or b is None:
+        return a is None and b is None
+    if not (math.isfinite(a) and math.isfinite(b)):
+        return a == b or (math.isnan(a) and math.isnan(b))
+    return abs(a - b) <= 1e-9 * max(abs(a), abs(b)) + 1e-12
+
+
+_NUMBER = re.compile(r'[-+]?(?:\d+\.?\d*(?:[eE][-+]?\d+)?|inf|nan)')
+
+
+def _same_messages(a, b):
+    if len(a) != len(b):
+        return False
+    for x, y in zip(a, b):
+        if _NUMBER.sub('#', x) != _NUMBER.sub('#', y):
+            return False
+        try:
+            if not all(_same(float(u), float(v)) for u, v in zip(_NUMBER.findall(x), _NUMBER.findall(y))):
+                return False
+        except ValueError:
+            return False
+    return True
+
+
+def _same_frames(a, b):
+    if len(a) != len(b):
+        return False
+    for fa, fb in zip(a, b):
+        if fa['columns'] != fb['columns'] or len(fa['rows']) != len(fb['rows']):
+            return False
+        for la, lb in zip(fa['rows'], fb['rows']):
+            if len(la) != len(lb) or not all(_same(u, v) for u, v in zip(la, lb)):
+                return False
+    return True
+
+
+def op_rows(spec, op):
+    """[name of the one-row Database, sample, row] for every data row an operation hands to the model
+    (forecast() and mdcev_row_split() call row i of any sample 'row_i'). Classification only."""
+    kind, s = op[0], op[1]
+    if kind == 'forecast':
+        return [[f'row_{r}', s, r] for r in range(len(spec['samples'][s]['rows']))]
+    if kind == 'validation':
+        return [[f'row_{op[2]}' if op[3] is None else op[3], s, op[2]]]
+    if kind == 'one_draw':
+        return [[op[4], s, op[2]]]
+    return [[op[3], s, op[2]]]
+
+
+def _utilities_differ(spec, a, b):
+    ra, rb = spec['samples'][a[1]]['rows'][a[2]], spec['samples'][b[1]]['rows'][b[2]]
+    return any(abs(_lin(alt['V'], ra) - _lin(alt['V'], rb)) > 1e-3 for alt in spec['alts'])
+
+
+def judge_history(spec) -> Outcome:
+    out = Outcome()
+    variant, labels, ops = spec['variant'], spec['labels'], spec['ops']
+    outside_pos = next((i for i, a in enumerate(spec['alts']) if a['gamma'] is None), None)
+    out.classes += [f'history:variant={variant}', f'history:ops={len(ops)}',
+                    f'history:outside_good={"yes" if outside_pos is not None else "no"}',
+                    f'history:kind={spec["kind"]}']
+    out.evaluations = len(ops)
+    # a later operation hands the model a one-row Database with the name of an earlier one
+    shared, stale = False, False
+    for k in range(1, len(ops)):
+        for j in range(k):
+            for a in op_rows(spec, ops[j]):
+                for b in op_rows(spec, ops[k]):
+                    if a[0] == b[0]:
+                        shared = True
+                        if _utilities_differ(spec, a, b):
+                            stale = True
+                            out.classes.append(f'history:{ops[j][0]}>{ops[k][0]}:same_name_other_utilities')
+    out.classes.append('history:row_names=' + ('shared_other_utilities' if stale else
+                                               'shared_same_utilities' if shared else 'distinct'))
+    out.nontrivial = stale
+    where = _render_model(spec, labels) + ' (V, mu shown for row 0 of the first sample)'
+
+    res_f = isolate.call(_observe_history, spec, False)
+    res_r = isolate.call(_observe_history, spec, True)
+    for res, who in ((res_f, 'fresh'), (res_r, 'reused')):
+        if not res['ok']:
+            out.fail(f'history:{variant}:child:{who}:{res["exc_type"]}',
+                     f'{_render_history(spec)}: {res["exc_type"]}: {res["exc_msg"]}')
+    if out.failures:
+        return out
+    base, reused = res_f['value'], res_r['value']
+    for o_ in (base, reused):
+        if 'build_exc' in o_:
+            out.fail(f'construct:{variant}:raises:{o_["build_exc"]["type"]}',
+                     f'{where}: constructor raised {o_["build_exc"]}')
+            return out
+    if not base['maps_ok']:
+        out.fail(f'maps:{variant}', f'{where}: index_to_key={base["index_to_key"]} key_to_index='
+                 f'{base["key_to_index"]} are not inverse bijections between labels and 0..n-1')
+        return out
+    common = {k: base[k] for k in ('labels', 'maps_ok', 'index_to_key', 'key_to_index', 'outside_key',
+                                   'outside_index')}
+
+    for j, op in enumerate(ops):
+        kind, s = op[0], op[1]
+        f, r = base['ops'][j], reused['ops'][j]
+        sample = spec['samples'][s]
+        n_draws = len(sample['eps'][0])
+        tag_f = f'a new model object, {_render_op(spec, op)}'
+        tag_r = f'one model object, {" then ".join(_render_op(spec, o_) for o_ in ops[:j + 1])}'
+        key_r = lambda aspect, _k=kind: f'reuse:{variant}:{_k}:{aspect}'  # noqa: E731
+        brute = (kind == 'forecast' and op[2]) or (kind == 'one_draw' and op[5] == 'bruteforce')
+        before = len(out.failures)
+
+        if kind == 'forecast' and not brute or kind == 'one_draw' and not brute:
+            # the same oracle as sub-check 1, first on the new model object, then on the reused one
+            if kind == 'forecast':
+                view, w0 = sample_view(spec, s), base['w0'][s]
+            else:
+                view, w0 = sample_view(spec, s, op[2], op[3]), [base['w0'][s][op[2] * n_draws + op[3]]]
+            observed = []
+            for o_ in (f, r):
+                obs = dict(common, w0=w0)
+                if 'exc' in o_:
+                    obs['forecast_exc'] = o_['exc']
+                elif kind == 'forecast':
+                    obs['forecast'] = dict(frames=o_['frames'])
+                else:
+                    sol = o_['solution']
+                    obs['forecast'] = dict(frames=[dict(columns=[k for k, _ in sol], rows=[[v for _, v in sol]])])
+                observed.append(obs)
+            judge_labelling(out, view, observed[0], tag_f)
+            if len(out.failures) > before:
+                continue  # not a matter of the history: sub-check 1 is about this
+            judge_labelling(out, view, observed[1], tag_r, key=key_r)
+            if 'forecast' in observed[1] and \
+                    not _same_frames(observed[0]['forecast']['frames'], observed[1]['forecast']['frames']):
+                out.fail(key_r('differs_from_new_model_object'),
+                         f'{where}: [{tag_r}] gives {observed[1]["forecast"]["frames"]}, '
+                         f'[{tag_f}] gives {observed[0]["forecast"]["frames"]}')
+            continue
+
+        if brute:
+            # the reference optimiser is not judged on its own (sub-check 1 uses it as a lower bound only)
+            if 'exc' in f:
+                out.classes.append(f'history:brute_force:raised:{f["exc"]["type"]}')
+                if 'exc' not in r or r['exc']['type'] != f['exc']['type']:
+                    out.fail(key_r('brute_force:differs_from_new_model_object'),
+                             f'{where}: [{tag_r}] gives {r}, [{tag_f}] gives {f}')
+                continue
+            if 'exc' in r:
+                out.fail(key_r(f'brute_force:raises:{r["exc"]["type"]}'), f'{where}: [{tag_r}] raised {r["exc"]} '
+                         f'but not [{tag_f}]')
+                continue
+            if kind == 'forecast':
+                same = _same_frames(f['frames'], r['frames'])
+            else:
+                same = (f['solution'] is None) == (r['solution'] is None) and \
+                    (f['solution'] is None or
+                     len(f['solution']) == len(r['solution']) and
+                     all(a[0] == b[0] and _same(a[1], b[1]) for a, b in zip(f['solution'], r['solution'])))
+            if not same:
+                out.fail(key_r('brute_force:differs_from_new_model_object'),
+                         f'{where}: [{tag_r}] gives {r}, [{tag_f}] gives {f}')
+            continue
+
+        row = sample['rows'][op[2]]
+        if kind == 'validation':
+            if 'exc' in f:
+                out.fail(f'pieces:{variant}:validation:raises:{f["exc"]["type"]}',
+                         f'{where}: [{tag_f}] raised {f["exc"]}')
+                continue
+            if 'exc' in r:
+                out.fail(key_r(f'raises:{r["exc"]["type"]}'), f'{where}: [{tag_r}] raised {r["exc"]}')
+                continue
+            relevant = relevant_validation(spec, row, labels, f['messages'])
+            if relevant:
+                out.fail(f'pieces:{variant}:validation:reports', f'{where}: [{tag_f}] reports {relevant[:2]}')
+                continue
+            relevant = relevant_validation(spec, row, labels, r['messages'])
+            if relevant:
+                out.fail(key_r('reports'), f'{where}: [{tag_r}] reports {relevant[:2]}, [{tag_f}] does not')
+            if not _same_messages(f['messages'], r['messages']):
+                out.fail(key_r('differs_from_new_model_object'),
+                         f'{where}: [{tag_r}] reports {r["messages"][:3]}, [{tag_f}] reports {f["messages"][:3]}')
+            continue
+
+        # pieces
+        if 'exc' in f:
+            out.fail(f'pieces:{variant}:one_row_database:raises:{f["exc"]["type"]}',
+                     f'{where}: [{tag_f}] raised {f["exc"]}')
+            continue
+        if 'exc' in r:
+            out.fail(key_r(f'raises:{r["exc"]["type"]}'), f'{where}: [{tag_r}] raised {r["exc"]}')
+            continue
+        seen = set()
+
+        def fail_f(aspect, msg):
+            if aspect not in seen:
+                seen.add(aspect)
+                out.fail(aspect if aspect.startswith('derivative_at_zero') else f'pieces:{variant}:{aspect}', msg)
+
+        def fail_r(aspect, msg, _key=key_r):
+            if aspect not in seen:
+                seen.add(aspect)
+                out.fail(_key(aspect), msg)
+
+        judge_points(fail_f, None, spec, row, labels, op[4], f['points'], base['outside_index'],
+                     f'{where} [{tag_f}]')
+        if len(out.failures) > before:
+            continue
+        judge_points(fail_r, None, spec, row, labels, op[4], r['points'], base['outside_index'],
+                     f'{where} [{tag_r}]')
+        for point, pf, pr in zip(op[4], f['points'], r['points']):
+            bad = [name for name in ('u_num', 'du_num', 'x_opt', 'du_at_opt')
+                   if (name in pf) != (name in pr) or name in pf and not _same(pf[name], pr[name])]
+            if bad:
+                out.fail(key_r('differs_from_new_model_object'),
+                         f'{where}: at [alternative position, expenditure, epsilon, multiplier] = {point} '
+                         f'[{tag_r}] gives {({k: pr.get(k) for k in bad})}, [{tag_f}] gives '
+                         f'{({k: pf.get(k) for k in bad})}')
+                break
     return out
 
 
@@ -851,6 +1260,54 @@ def _pieces_case(draw, tier):
     spec['points'] = points
     return spec
 
+_ROW_NAMES = ['row_0', 'row_0', 'row_0', 'row_1', 'obs', 'c18_rows']
+
+
+@st.composite
+def _history_case(draw, tier):
+    spec = draw(_model(tier))
+    n = len(spec['alts'])
+    n_draws = draw(st.sampled_from([1, 1, 2]))
+    samples = []
+    for _ in range(draw(st.sampled_from([2, 2, 3]))):
+        n_rows = draw(st.sampled_from([1, 2, 2]))
+        samples.append(dict(
+            name=draw(st.sampled_from(['base_case', 'scenario', 'c18_rows'])),
+            rows=[dict(x1=draw(_r(-2.0, 2.0)), x2=draw(_r(-2.0, 2.0))) for _ in range(n_rows)],
+            eps=[[[draw(_GUMBEL) for _ in range(n)] for _ in range(n_draws)] for _ in range(n_rows)]))
+    spec['row'] = samples[0]['rows'][0]
+    spec['samples'] = samples
+    spec['budget'] = draw(_logr(0.2, 400.0))
+    spec['tol_dual'] = draw(st.sampled_from([1e-10, 1e-10, 1e-13]))
+    spec['tol_budget'] = draw(st.sampled_from([1e-10, 1e-10, 1e-8]))
+    ops = []
+    for j in range(draw(st.sampled_from([2, 2, 3, 4]))):
+        # the first two uses are about two different samples
+        s = j if j < 2 else draw(st.integers(0, len(samples) - 1))
+        rows = samples[s]['rows']
+        kind = draw(st.sampled_from(['forecast', 'forecast', 'forecast', 'validation', 'validation',
+                                     'one_draw', 'one_draw', 'pieces', 'pieces']))
+        r = draw(st.sampled_from([0] + list(range(len(rows)))))
+        if kind == 'forecast':
+            ops.append([kind, s, draw(st.sampled_from([False, False, False, True]))])
+        elif kind == 'validation':
+            ops.append([kind, s, r, draw(st.one_of(st.none(), st.sampled_from(_ROW_NAMES)))])
+        elif kind == 'one_draw':
+            ops.append([kind, s, r, draw(st.integers(0, n_draws - 1)), draw(st.sampled_from(_ROW_NAMES)),
+                        draw(st.sampled_from(['bisection', 'bisection', 'bruteforce']))])
+        else:
+            points = []
+            for _ in range(draw(st.integers(1, 3))):
+                i = draw(st.integers(0, n - 1))
+                inside = spec['alts'][i]['gamma'] is not None
+                x = draw(st.one_of(st.just(0.0), _logr(1e-3, 1e3), _logr(1e-3, 1e3))) if inside \
+                    else draw(_logr(1e-3, 1e3))
+                eps = draw(_GUMBEL)
+                points.append([i, x, eps, _point_lambda(spec, i, eps, draw(_r(0.02, 0.98)), rows[r])])
+            ops.append([kind, s, r, draw(st.sampled_from(_ROW_NAMES)), points])
+    spec['ops'] = ops
+    return spec
+
 
 def strat_forecast(tier):
     return _forecast_case(tier)
@@ -858,6 +1315,10 @@ def strat_forecast(tier):
 
 def strat_pieces(tier):
     return _pieces_case(tier)
+
+
+def strat_history(tier):
+    return _history_case(tier)
 
 
 # ---------------------------------------------------------------------------------------------
@@ -890,6 +1351,28 @@ def _render_pieces(spec):
     return f'{_render_model(spec, spec["labels"])} at {[[spec["labels"][p[0]]] + p[1:] for p in spec["points"]]}'
 
 
+def _render_op(spec, op):
+    kind, s = op[0], op[1]
+    sample = spec['samples'][s]
+    if kind == 'forecast':
+        return (f'forecast(Database({sample["name"]!r}, rows={sample["rows"]}), epsilons[row][draw][alternative]='
+                f'{sample["eps"]}, brute_force={op[2]})')
+    one = (f'Database({sample["name"]!r}, rows={sample["rows"]}).mdcev_row_split()[{op[2]}]'
+           if kind == 'validation' and op[3] is None else
+           f'Database({op[3] if kind != "one_draw" else op[4]!r}, {sample["rows"][op[2]]})')
+    if kind == 'validation':
+        return f'validation({one})'
+    if kind == 'one_draw':
+        return f'forecast_{op[5]}_one_draw({one}, epsilon[alternative]={sample["eps"][op[2]][op[3]]})'
+    return (f'utility/derivative/optimal_consumption_one_alternative(one_observation={one}) at '
+            f'[alternative, expenditure, epsilon, multiplier] {[[spec["labels"][p[0]]] + p[1:] for p in op[4]]}')
+
+
+def _render_history(spec):
+    return (f'{_render_model(spec, spec["labels"])}, budget={spec["budget"]}, tolerance_dual={spec["tol_dual"]}, '
+            f'tolerance_budget={spec["tol_budget"]}: ' + ' then '.join(_render_op(spec, op) for op in spec['ops']))
+
+
 SUBCHECKS = [
     SubCheck('forecast', strat_forecast, judge_forecast, _render_forecast,
              dict(quick=2000, thorough=40000),
@@ -902,5 +1385,13 @@ SUBCHECKS = [
              'numeric utility = symbolic utility (engine) = report formula, numeric derivative = gradient of the '
              'symbolic utility = report formula (incl. zero expenditure for inside goods), closed-form '
              'expenditure inverts the derivative; non-trivial if labels are arbitrary and >= 3 points'),
+    SubCheck('history', strat_history, judge_history, _render_history,
+             dict(quick=600, thorough=12000),
+             '2-4 uses of ONE model object (forecast by bisection or brute force, validation, one-draw forecasts and '
+             'numeric pieces on hand-made one-row Databases whose names repeat) on 2-3 samples of 1-2 rows: every '
+             'use is judged by the oracles of the other sub-checks (Kuhn-Tucker conditions, report formulas, '
+             'validation reports) for the rows it was given, and equals the same use by a new model object; '
+             'non-trivial if a later use hands the model a one-row Database carrying the name of an earlier one '
+             '(forecast and mdcev_row_split call row i of every sample row_i) with other baseline utilities'),
 ]
 RULE = ' | '.join(f'{s.name}: {s.rule}' for s in SUBCHECKS)
